@@ -24,13 +24,14 @@ int main(int argc, char **argv)
 	rbtree_t t, c;
 	if (rbtree_init(&t, sizeof(int), sizeof(int), cmp)) return 2;
 	memset(&c, 0, sizeof(c));
+	printf("{\"at_copy\":[");
 	for (int a = 4; a <= argc; ++a) {
-		if (cat == a - 4 && !copied) { if (rbtree_copy(&t, &c)) return 2; copied = 1; }
+		if (cat == a - 4 && !copied) { if (rbtree_copy(&t, &c)) return 2; copied = 1; first = 1; pre(t.root); }
 		if (a == argc) break;
 		int k = atoi(argv[a]), v = a - 4;
 		if (rbtree_insert(&t, &k, &v)) return 2;
 	}
-	printf("{\"pre\":["); first = 1; pre(t.root);
+	printf("],\"pre\":["); first = 1; pre(t.root);
 	printf("],\"inorder\":["); first = 1; ino(t.root);
 	printf("],\"cpre\":["); first = 1; if (copied) pre(c.root);
 	printf("],\"found\":[");
